@@ -2,6 +2,7 @@ package c14
 
 import (
 	"context"
+	"crypto/sha256"
 	"errors"
 	"fmt"
 	"math/big"
@@ -10,10 +11,14 @@ import (
 	"github.com/DOSNetwork/core/dosnode"
 	"github.com/DOSNetwork/core/onchain"
 	"github.com/DOSNetwork/core/p2p"
+	"github.com/DOSNetwork/core/share"
 	dkg "github.com/DOSNetwork/core/share/dkg/pedersen"
 	vss "github.com/DOSNetwork/core/share/vss/pedersen"
+	"github.com/DOSNetwork/core/sign/tbls"
 	"github.com/DOSNetwork/core/suites"
 	"github.com/DOSNetwork/core/utils"
+
+	"github.com/dedis/kyber"
 
 	"verifharness/internal/doubles"
 )
@@ -78,8 +83,29 @@ func init() {
 		signc := make(chan *vss.Signature) // dispatchSign: make(chan *vss.Signature)
 		inst := &instance{chans: map[string]reflect.Value{"dosnode.dispatchSign.out#0": rv(signc)}, cancel: cancel, watch: []string{"dosnode.recoverSign"}}
 		inst.value = func(string, int) reflect.Value { return rv(&vss.Signature{RequestId: []byte{1}}) }
+		var pub *share.PubPoly
+		thr := 2
+		if i, ok := s.pick["if len(signShares) >= nbThreshold"]; ok && i == 0 {
+			// the success path: VALID shares of a 1-of-3 sharing, so that the first share through completes
+			// the threshold (the model's branch is stateless: it does not count shares), the stage reports
+			// once and goes on to drain the late shares (/repo 3a1c0bc)
+			suite := suites.MustFind("bn256")
+			d := sha256.Sum256([]byte("c14-recover-coeff"))
+			pri := share.CoefficientsToPriPoly(suite.G2(), []kyber.Scalar{suite.G2().Scalar().SetBytes(d[:])})
+			pub = pri.Commit(suite.G2().Point().Base())
+			shares := pri.Shares(3)
+			content := append([]byte("c14 content "), make([]byte, 20)...) // result ++ 20-byte submitter address
+			thr = 1
+			inst.value = func(_ string, k int) reflect.Value {
+				sig, err := tbls.Sign(suite, shares[k%3], content)
+				if err != nil {
+					panic(err)
+				}
+				return rv(&vss.Signature{Index: 1, RequestId: []byte{1}, Content: content, Signature: sig})
+			}
+		}
 		inst.start = func() {
-			out, errc := dosnode.VerifRecoverSign(ctx, signc, suites.MustFind("bn256"), nil, 2, 3, doubles.NewLogger())
+			out, errc := dosnode.VerifRecoverSign(ctx, signc, suites.MustFind("bn256"), pub, thr, 3, doubles.NewLogger())
 			inst.chans["dosnode.recoverSign.out#0"] = rv(out)
 			inst.chans["dosnode.recoverSign.errc#0"] = rv(errc)
 		}
